@@ -4,6 +4,7 @@ CONSTANTS
   NF = 3
   FO <- Geo4x3
   SYNC = TRUE
+  WERR = "first"
   DESIGN = "safe"
 INVARIANT Inv
 CHECK_DEADLOCK FALSE
